@@ -257,3 +257,24 @@ def run_apalache_law(law, timeout=600):
     if "The outcome is: NoError" not in r.stdout:
         raise ToolError("Apalache does not confirm the specification-level law %s:\n%s" % (law, r.stdout[-2000:]))
     return dict(law=law, outcome="NoError", domain="all 32-bit values (symbolic)")
+
+
+_OUT_RE = re.compile(r'"out":\{(?:"e":"[^"]*",)?"k":"(\w+)"')
+_RUN_RE = re.compile(r'"run":(\d+)\}?$')
+
+
+def trace_stats(traces, nplaces):
+    """Measured from the recorded traces: histogram of outcome kinds and the number of distinct cases in which at least
+    one call was really executed by the implementation (an outcome other than skipped / unsupported)."""
+    hist, nontrivial = {}, set()
+    for t in traces:
+        for line in open(t):
+            if line.startswith('{"call"'):
+                m = _OUT_RE.search(line)
+                k = m.group(1) if m else "?"
+                hist[k] = hist.get(k, 0) + 1
+                if k not in ("skipped", "unsupported"):
+                    r = _RUN_RE.search(line.rstrip())
+                    if r:
+                        nontrivial.add((t, int(r.group(1)) // max(nplaces, 1)))
+    return hist, len(nontrivial)
